@@ -6,6 +6,7 @@
 
 mod alloc;
 mod attack;
+mod behaviours;
 mod conn;
 mod control;
 mod disthdr;
@@ -62,6 +63,7 @@ fn main() {
         "serde-rt" => serde_rt::run(rest),
         "elixir-run" => elixir::run(rest),
         "epmd-run" => epmd::run(rest),
+        "behaviours-run" => behaviours::run(rest),
         "nodeconn-run" => nodeconn::run(rest),
         other => {
             eprintln!("unknown subcommand {other}");
